@@ -122,6 +122,23 @@ PROPS = {
         technique="runtime monitoring: differential oracle over the error-detail flag (same parse, flag off vs on) plus well-formedness checks of the recorded attempts",
         assumptions=["cases the reference interpreter cannot finish are skipped and counted"],
     ),
+    "C08": dict(
+        runs=BOTH_CONFIGS("c08"),
+        rule=("random grammars (G full, up to 6 rules) x every start rule x inputs (short exhaustive + walks + mutants) on which the parse "
+              "FAILS: the RuleEnter/RuleExit log of the real parse (hook H1c: rule, start position, ok, lookahead polarity, atomicity at exit) "
+              "is rebuilt into activations and an offline checker decides the statement clause by clause: (1) reported position = furthest "
+              "start of a reportable activation that failed or matched under negation, 0 if none; (2) every expected/unexpected rule has such "
+              "an activation exactly there; (3) both lists strictly sorted; (4) the exact lists equal the fold in which a failing rule replaces "
+              "what was recorded inside its own extent at that position unless exactly one entry was (both readings of `exactly one` accepted); "
+              "plus location on a char boundary and line/column equal to the naive count. Non-trivial: >= 2 qualifying activations on a "
+              "non-empty input; distinct = (grammar, rule, input) hashes."),
+        level_text=("Exploration: every failing parse of the real engine is traced through hooks and judged offline against the statement's own "
+                    "clauses, independently of how the engine keeps its attempt lists."),
+        level_note="Trusted: hook H1c reports what ParserState::rule saw (add-only instrumentation) and the checker in harness/vmon/src/errcheck.rs.",
+        technique="runtime monitoring: offline trace checker over hooked rule enter/exit event logs of failing parses, both feature configurations",
+        assumptions=["silent rules and built-ins other than EOI never reach ParserState::rule and are not reportable, as the statement says",
+                     "the derive back-end is traced by the same hook; it is exercised through C02's generated batch"],
+    ),
 }
 
 HOOK_COMMITS = [
